@@ -12,6 +12,7 @@ import (
 	"time"
 
 	"github.com/gabriel-vasile/mimetype/internal/verifsim/core"
+	"github.com/gabriel-vasile/mimetype/internal/verifsim/inputs"
 	"github.com/gabriel-vasile/mimetype/internal/verifsim/lib"
 	"github.com/gabriel-vasile/mimetype/internal/verifsim/work"
 )
@@ -69,8 +70,29 @@ func main() {
 	hashes := flag.Bool("emit-hashes", false, "print per-run log and result hashes (determinism self-test)")
 	maxFail := flag.Int("maxfail", 2, "stop after this many failing runs")
 	keys := flag.Bool("emit-keys", false, "print the distinct-case keys (for merging across workers)")
+	selfcheck := flag.Bool("selfcheck-inputs", false, "materialise every input family with extreme parameters")
 	reference := flag.Bool("reference", false, "serve baseline answers from a tree that is never extended (child of a worker)")
 	flag.Parse()
+	if *selfcheck {
+		// every family with extreme parameters must materialise without panicking
+		n := 0
+		for _, fam := range inputs.Families {
+			for _, N := range []int{-1, 0, 1, 2, 3, 7, 100, 5000} {
+				for _, P := range []int{-1, 0, 1, 2, 50, 4097, 100000} {
+					for V := 0; V < 9; V++ {
+						for _, cut := range []int{0, 1, 16} {
+							in := inputs.Input{Fam: fam, N: N, P: P, V: V, Cut: cut, Tail: V, Seed: uint64(N + P)}
+							_ = in.Bytes()
+							_ = in.Tag()
+							n++
+						}
+					}
+				}
+			}
+		}
+		fmt.Println("inputs ok:", n)
+		return
+	}
 	if *reference {
 		core.StartWatchdog(120*time.Second, func() string { return "reference process" })
 		lib.ServeReference()
